@@ -2013,3 +2013,61 @@ def c04_repeat_items(rng, n):
         it.meta = {'gen': 'c04_repeat'}
         out.append(it)
     return out
+
+
+# ---------------------------------------------------------------------------------------------
+# C08: trait-instruction parameters in every combination and order
+# ---------------------------------------------------------------------------------------------
+def c08_cases(rng, n):
+    out = []
+    for i in range(n):
+        enum = rng.random() < 0.3
+        names = [x for x in TRAIT_NAMES if not (enum and 'existing' in x)]
+        nm = rng.choice(names)
+        spec = {'vars': None, 'attribute': None, 'impl_attribute': None, 'inner_attribute': None, 'tail': None}
+        if rng.random() < 0.6:
+            spec['vars'] = [('k%d' % j, rng.choice(['1', '@.x + 1', 'mk(@)', 'two(2, @)'])) for j in range(rng.choice([1, 1, 2, 3]))]
+        for a, choices in (('attribute', ['inline', 'allow(unused)', 'doc = "x"']), ('impl_attribute', ['cfg(any())', 'allow(dead_code)']),
+                           ('inner_attribute', ['allow(unused_variables)', 'allow(clippy::all)'])):
+            if rng.random() < 0.35:
+                spec[a] = rng.choice(choices)
+        r = rng.random()
+        if r < 0.3 and not enum:
+            spec['tail'] = ('update', rng.choice(['Default::default()', 'base(@)', 'D { q: 1, ..mk() }']))
+        elif r < 0.55:
+            spec['tail'] = ('return', rng.choice(['mk(@)', 'conv(&@, 3)', 'W { a: @.a }']))
+        elif r < 0.75 and enum:
+            spec['tail'] = ('default', rng.choice(['panic!()', 'dflt()']))
+        ps = []
+        if spec['vars']:
+            ps.append('vars(%s)' % ', '.join('%s: { %s }' % kv for kv in spec['vars']))
+        for a in ('attribute', 'impl_attribute', 'inner_attribute'):
+            if spec[a]:
+                ps.append('%s(%s)' % (a, spec[a]))
+        rng.shuffle(ps)
+        if spec['tail']:
+            kw = {'update': '..', 'return': 'return ', 'default': '_ '}[spec['tail'][0]]
+            braced = rng.random() < 0.5
+            ps.append(kw + (('{ %s }' % spec['tail'][1]) if braced else spec['tail'][1]))
+        attrs = [trait_attr(nm, 'A', '', 'Er', ', '.join(ps))]
+        if rng.random() < 0.3:
+            attrs.append(trait_attr(rng.choice([x for x in names if not (set(kinds_of(x)) & set(kinds_of(nm)))] or [nm]), 'B', '', 'Er'))
+            if attrs[-1].name == nm:
+                attrs.pop()
+        rng.shuffle(attrs)
+        if enum:
+            vs = [Variant('V', 'unit', [], [Attr('ghost', '{ dv() }')] if rng.random() < 0.4 else []), Variant('W', 'tuple', [Field(None, 'i32')]),
+                  Variant('X', 'named', [Field('p', 'i32', [Attr('map', 'q')])])]
+            it = Item('enum', 'E', 'named', '', attrs, vs)
+        else:
+            named = rng.random() < 0.7
+            use_k = spec['vars'] and rng.random() < 0.6
+            fields = [Field('a' if named else None, 'i32', [Attr('map', '~ + k0')] if use_k else []), Field('b' if named else None, 'i16', [Attr('map', 'bb')] if named and rng.random() < 0.5 else [])]
+            if rng.random() < 0.2:
+                fields.append(Field('par' if named else None, 'P', [Attr('parent')]))
+            if spec['tail'] and spec['tail'][0] == 'update' and named and rng.random() < 0.5:
+                fields.append(Field('g', 'u8', [Attr('ghost')]))
+            it = Item('struct', 'S', 'named' if named else 'tuple', '', attrs, fields)
+        it.meta = {'gen': 'c08', 'spec': spec, 'instr': nm, 'cp': 'A'}
+        out.append(it)
+    return out
